@@ -116,6 +116,9 @@ SUBS = [
     Sub("grammar", oracle, strategy=lambda tier: dc.grammar_cases(max_batch=8),
         budget={"quick": 6000, "thorough": 120000}, shards={"quick": 8, "thorough": 16},
         what="request grammar: ids of every JSON type, batches of mixed entries"),
+    Sub("long", oracle, strategy=lambda tier: dc.long_cases(),
+        budget={"quick": 1000, "thorough": 30000}, shards={"quick": 4, "thorough": 16},
+        what="bodies of 100..70 000 bytes: long string ids echoed verbatim, long entries inside batches"),
     Sub("permuted", oracle, strategy=lambda tier: permuted_batches(),
         budget={"quick": 6000, "thorough": 120000}, shards={"quick": 8, "thorough": 16},
         what="batches made of one entry per kind in random order, default and custom dispatch"),
